@@ -59,13 +59,13 @@ type capTx struct {
 
 var _ plugintypes.TransactionState = (*capTx)(nil)
 
-func (t *capTx) ID() string                                                { return "c11" }
-func (t *capTx) Variables() plugintypes.TransactionVariables               { return nil }
-func (t *capTx) Collection(variables.RuleVariable) collection.Collection   { return nil }
-func (t *capTx) Interrupt(*types.Interruption)                             {}
-func (t *capTx) DebugLogger() debuglog.Logger                              { return debuglog.Noop() }
-func (t *capTx) Capturing() bool                                           { return t.capturing }
-func (t *capTx) LastPhase() types.RulePhase                                { return types.PhaseLogging }
+func (t *capTx) ID() string                                              { return "c11" }
+func (t *capTx) Variables() plugintypes.TransactionVariables             { return nil }
+func (t *capTx) Collection(variables.RuleVariable) collection.Collection { return nil }
+func (t *capTx) Interrupt(*types.Interruption)                           {}
+func (t *capTx) DebugLogger() debuglog.Logger                            { return debuglog.Noop() }
+func (t *capTx) Capturing() bool                                         { return t.capturing }
+func (t *capTx) LastPhase() types.RulePhase                              { return types.PhaseLogging }
 func (t *capTx) CaptureField(idx int, value string) {
 	if idx < 0 || idx > 9 {
 		t.oob = true
@@ -257,7 +257,7 @@ type space struct {
 	atoms  []atom
 	from   int
 	to     int
-	strLen func(size int) int // all symbol sequences up to this length (0 = none)
+	strLen func(size int) int  // all symbol sequences up to this length (0 = none)
 	walk   func(size int) bool // plus the inputs derived from a walk of the AST
 }
 
